@@ -115,6 +115,8 @@ def gen_cases(ctx, n):
             cases.append({"kind": "program", "via": via, "i": i, "map": m, "src": gen_program(r, m)})
         elif i % 20 == 19:
             cases.append(gen_flat_case(r, i))
+        elif i % 40 == 29:
+            cases.append(gen_pipeline_case(r, i))
         else:
             xm = gen_exec_map(r)
             hazard = (i % 50 == 9)
@@ -233,6 +235,39 @@ def gen_exec_program(r, m, hazard):
     return "\n".join(lines) + "\n"
 
 
+def gen_pipeline_case(r, i):
+    """the tool pipeline `tidy-imports --transform OLD=NEW` = transform_imports, then fix_unused_and_missing_imports with
+    remove_unused, on a half-migrated file: the OLD spelling is imported and USED, the NEW spelling is already imported
+    beside it and UNUSED (or used as well); every rewritten import must keep binding the local name the code uses"""
+    oroot, nroot = r.choice(X_OLD_ROOTS), r.choice(X_NEW_ROOTS)
+    omod = ".".join([oroot] + [r.choice(X_SUBS) for _ in range(r.randint(0, 1))])
+    nmod = ".".join([nroot] + [r.choice(X_SUBS) for _ in range(r.randint(0, 1))])
+    lines, body = [], []
+    k = r.random()
+    if k < .6:                                           # member-level rename  OLDPKG.old -> NEWPKG.new
+        old, new = r.sample(X_VALS, 2) if r.random() < .7 else [X_VALS[0], X_VALS[0]]
+        m = [[omod + "." + old, nmod + "." + new]]
+        al = old if r.random() < .7 else "al1"
+        lines.append("from %s import %s%s" % (omod, old, "" if al == old else " as " + al))
+        nl = new if r.random() < .7 else "al2"
+        lines.append("from %s import %s%s" % (nmod, new, "" if nl == new else " as " + nl))
+        body.append("v1 = %s(1)" % al)
+        if r.random() < .3:
+            body.append("v2 = %s.h" % nl)                # the NEW spelling is used too
+    else:                                                # module-level rename, aliased module imports
+        m = [[omod, nmod]]
+        lines.append("import %s as al1" % omod)
+        lines.append(r.choice(["import %s as al2" % nmod, "from %s import %s" % (nmod, r.choice(X_VALS))]))
+        body.append("v1 = al1.%s(1)" % r.choice(X_VALS))
+        if r.random() < .3:
+            body.append("def fn1(a=None):\n    return al1.k\nv2 = fn1()")
+    if r.random() < .5:
+        lines.append(r.choice(["import other.thing", "from other import z"]))     # unused, unrelated
+    r.shuffle(lines)
+    return {"kind": "exec", "i": i, "map": m, "hazard": False, "pipeline": r.choice(["api", "api", "cli"]),
+            "src": "\n".join(lines + body) + "\n"}
+
+
 def run_aliased(src, m):
     """execute src under the aliasing universe; returns the observables"""
     import importlib
@@ -269,7 +304,7 @@ def run_aliased(src, m):
         def __getattr__(s, n):
             if n.startswith("__") or n in X_SUBS or n in ("n1", "n2", "thing"):
                 raise AttributeError(n)        # a submodule that nothing imported: as a real package
-            return V(canon(s.__name__) + ":" + n)
+            return V(canon(s.__name__ + "." + n))
 
     roots = set(X_OLD_ROOTS + X_NEW_ROOTS + ["other"])
 
@@ -538,7 +573,26 @@ def impl_case(c):
         from pyflyby._parse import PythonBlock
         before = run_aliased(c["src"], c["map"])
         try:
-            out = S.transform_imports(PythonBlock(c["src"]), m).text.joined
+            if c.get("pipeline") == "api":
+                blk = S.transform_imports(PythonBlock(c["src"]), m)
+                out = S.fix_unused_and_missing_imports(blk, add_missing=False, remove_unused=True, add_mandatory=False).text.joined
+            elif c.get("pipeline") == "cli":
+                import os
+                import shutil
+                import tempfile
+                from harness.c11 import run_cli
+                d = tempfile.mkdtemp(prefix="verif-c18cli-")
+                try:
+                    with open(os.path.join(d, "t.py"), "w") as fh:
+                        fh.write(c["src"])
+                    argv = ["--print", "--no-add"] + ["--transform=%s=%s" % (k_, v_) for k_, v_ in c["map"]] + ["t.py"]
+                    code, out, err = run_cli(os.path.join(os.environ.get("VERIF_REPO", "/repo"), "bin", "tidy-imports"), argv, d)
+                finally:
+                    shutil.rmtree(d, ignore_errors=True)
+                if code != 0:
+                    return {"before": before, "out": None, "error": "tidy-imports exited with %r: %s" % (code, err)}
+            else:
+                out = S.transform_imports(PythonBlock(c["src"]), m).text.joined
         except Exception as e:
             return {"before": before, "out": None, "error": type(e).__name__ + ": " + str(e)[:100]}
         after = run_aliased(out, c["map"])
@@ -708,7 +762,7 @@ def oracle_exec(ctx, c, im):
     if im.get("out") is None:
         return "transform_imports raised %s" % im.get("error")
     a = im["after"]
-    ctx.bump("exec:in_domain")
+    ctx.bump("exec:in_domain" + (":pipeline:" + c["pipeline"] if c.get("pipeline") else ""))
     if (a["exc"] or "").startswith("NameError") and root_of_old_read_outside_old(c):
         ctx.known_hit("C18-a", "behaviour clause: a plain `import OLD[.x]` with a dotted OLD becomes `import NEW[.x]` and stops binding the "
                                "root package of OLD; other references through that root (e.g. `pkg.k` next to `import pkg.sub`, or a "
@@ -719,7 +773,15 @@ def oracle_exec(ctx, c, im):
         return "the renamed program raises %s; before: no exception.  output:\n%s" % (a["exc"], im["out"])
     if a["log"] != b["log"]:
         return "operations on imported objects differ: %r vs %r\noutput:\n%s" % (b["log"][:8], a["log"][:8], im["out"])
-    if a["final"] != b["final"]:
+    bf = b["final"]
+    if c.get("pipeline"):
+        # the pipeline also removes unused imports: names that disappeared must be imports nothing reads (the program
+        # still runs - checked above); every computed value (v*, fn*) must still be there and every remaining name equal
+        lost = [k for k in bf if k not in a["final"]]
+        if any(re.match(r"(v|fn)\d+$", k) for k in lost):
+            return "computed values lost: %r\noutput:\n%s" % (lost, im["out"])
+        bf = {k: v for k, v in bf.items() if k in a["final"]}
+    if a["final"] != bf:
         return "final values differ: %r vs %r\noutput:\n%s" % (b["final"], a["final"], im["out"])
     return None
 
